@@ -233,22 +233,28 @@ func features() sqlgen.Features {
 
 func TestCancelEveryPoll(t *testing.T) {
 	hx.Rule("cancel_every_poll", "G-SQL statements (incl. long ones so the tokenizer polls) x {gosqlx.ParseWithContext, Tokenizer.TokenizeContext, Parser.ParseContextFromModelTokens}; a counting context first never fires (result must equal the context-free call, P polls counted), then fires at EVERY poll index k < P (evenly sampled above 400) with Canceled and DeadlineExceeded: no value, errors.Is matches exactly that error, <= 3 further polls, used instances answer a probe like fresh ones; non-trivial = P >= 3; distinct = entry + poll count + feature set")
-	cancelCheck.Rapid(t, hx.N(800, 40000), func(rt *rapid.T) CancelCase {
-		g := sqlgen.New(rt, features())
-		st := sqlgen.Statement(g)
-		sql := sqlgen.SQL(st.Toks)
-		entry := rapid.SampledFrom([]string{"gosqlx", "parser", "parser", "tokenizer"}).Draw(rt, "entry")
-		if entry == "tokenizer" || rapid.IntRange(0, 5).Draw(rt, "long") == 0 {
-			// make the token stream long enough for the tokenizer's every-100-tokens poll
-			n := rapid.IntRange(1, 6).Draw(rt, "repeat")
-			sql = sql + strings.Repeat(" ; "+sql, n*3)
-		}
-		var cl []string
-		for k := range st.Stats {
-			cl = append(cl, k)
-		}
-		hx.Case("cancel_every_poll", len(st.Toks) >= 6, entry+"|"+strings.Join(cl, ",")+fmt.Sprint(len(st.Toks)/5), "entry_"+entry)
-		hx.Sample("cancel_every_poll", CancelCase{SQL: sql, Entry: entry})
-		return CancelCase{SQL: sql, Entry: entry}
-	})
+	cancelCheck.Rapid(t, hx.N(800, 40000), genCancellation)
 }
+
+// genCancellation is the case generator of cancelCheck (shared by the rapid run and the native fuzz target).
+func genCancellation(rt *rapid.T) CancelCase {
+	g := sqlgen.New(rt, features())
+	st := sqlgen.Statement(g)
+	sql := sqlgen.SQL(st.Toks)
+	entry := rapid.SampledFrom([]string{"gosqlx", "parser", "parser", "tokenizer"}).Draw(rt, "entry")
+	if entry == "tokenizer" || rapid.IntRange(0, 5).Draw(rt, "long") == 0 {
+		// make the token stream long enough for the tokenizer's every-100-tokens poll
+		n := rapid.IntRange(1, 6).Draw(rt, "repeat")
+		sql = sql + strings.Repeat(" ; "+sql, n*3)
+	}
+	var cl []string
+	for k := range st.Stats {
+		cl = append(cl, k)
+	}
+	hx.Case("cancel_every_poll", len(st.Toks) >= 6, entry+"|"+strings.Join(cl, ",")+fmt.Sprint(len(st.Toks)/5), "entry_"+entry)
+	hx.Sample("cancel_every_poll", CancelCase{SQL: sql, Entry: entry})
+	return CancelCase{SQL: sql, Entry: entry}
+}
+
+// FuzzCancellation: coverage-guided search over the same generator (thorough tier).
+func FuzzCancellation(f *testing.F) { cancelCheck.Fuzz(f, genCancellation) }
